@@ -19,7 +19,7 @@ type Events struct {
 	NegOverflow int // -INT_MIN, abs(INT_MIN)
 	F2IRange    int // float -> int conversion of an out-of-range value
 	F2INaN      int
-	F2UNegFrac  int // float in (-1, 0) converted to u32: 0 in WGSL; GLSL: "undefined to convert a negative floating-point value to an uint"
+	F2UNeg      int // f32 -> u32 of a negative value that truncates into range (WGSL: 0; GLSL leaves it undefined)
 	ShiftWide   int // shift amount >= 32 at run time
 	NotRepresentable int // abstract value converted to a concrete type that cannot hold it (shader-creation error)
 	AbsOverflow int // abstract-int arithmetic overflowed 64 bits
@@ -30,6 +30,7 @@ type Events struct {
 	RoundTie    int // round() of an exact .5 tie (WGSL: ties to even)
 	RemNeg      int // i32 % with a negative operand (WGSL: truncated remainder; GLSL: undefined)
 	IntOverflow int // i32/u32 + - * << whose mathematical result does not fit (matters for const-expressions only)
+	DotIntOverflow int // dot() of i32 vectors with a product or partial sum outside the i32 range (WGSL wraps; MSL's helper computes in signed int: C04-4)
 	UndefBuiltin int // builtin called outside the domain where WGSL defines the result
 	Imprecise   int // float operation whose WGSL accuracy bound is so loose here that any comparison would be unsound
 	Loads       int // loads from storage / uniform buffers
